@@ -20,8 +20,9 @@ if mutants:
     for f in sorted(glob.glob("mutants/*.diff")):
         m = re.match(r"(C\d+)", os.path.basename(f))
         if m: items.append((os.path.basename(f), f, [m.group(1)], None))
-for name, patch, pids, metap in items:
-    if only and only not in name: continue
+jobs = int(a[a.index("--jobs") + 1]) if "--jobs" in a else 1
+def one(item):
+    name, patch, pids, metap = item
     res = {}
     for pid in pids:
         if not os.path.exists(f"props/{pid}.py"):
@@ -29,7 +30,6 @@ for name, patch, pids, metap in items:
         p = subprocess.run(["tools/with_mutant.sh", patch, "--", "./check", pid, "--tier", tier], capture_output=True, text=True, timeout=7200)
         v = [l for l in p.stdout.splitlines() if l.startswith("VIOLATION")]
         res[pid] = ("CAUGHT" if p.returncode == 1 and v else f"missed(rc={p.returncode})")
-    rows.append((name, res))
     print(name, res, flush=True)
     if metap:
         meta = json.load(open(metap))
@@ -37,3 +37,7 @@ for name, patch, pids, metap in items:
         cb[tier] = res
         meta["caught_by"] = cb
         json.dump(meta, open(metap, "w"), indent=1)
+    return (name, res)
+from concurrent.futures import ThreadPoolExecutor
+with ThreadPoolExecutor(jobs) as ex:
+    rows = list(ex.map(one, [i for i in items if not (only and only not in i[0])]))
